@@ -115,6 +115,11 @@ mod bigint;
 mod bigrand;
 mod biguint;
 
+#[cfg(num_bigint_verif)]
+pub mod verif_probe;
+#[cfg(num_bigint_verif)]
+pub use crate::biguint::verif;
+
 #[cfg(target_pointer_width = "32")]
 type UsizePromotion = u32;
 #[cfg(target_pointer_width = "64")]
